@@ -83,6 +83,20 @@ def gen_cases(rng, tier):
                       'vec1': fqeio.random_state(rng, norb, keys, density=0.9, amp=2),
                       'c': [rng.randint(-2, 2) or 1, rng.randint(-2, 2)],
                       'update': ['axpy', 'iadd', 'scale', 'conj', 'axpy', 'iadd'][k % 6]})
+    # three orbitals: sectors in which every spin block of the 3-RDM (aaa, aab, abb, bbb) is populated - three electrons of one
+    # spin need three orbitals; the 3-RDM is compared on both same-spin blocks completely and on a sample of the rest
+    shapes3 = [(1, 3), (3, 1), (2, 3), (3, 2), (0, 3), (3, 0)]
+    for k, (na, nb) in enumerate(shapes3 if tier != 'quick' else shapes3[:4]):
+        norb, nso = 3, 6
+        keys = [(na + nb, na - nb)]
+        same = [ix for ix in itertools.product(range(nso), repeat=6) if len(set(q % 2 for q in ix)) == 1]
+        flat = lambda ix: sum(q * nso ** (5 - i) for i, q in enumerate(ix))
+        sample = sorted(set([flat(ix) for ix in same] + [rng.randrange(nso ** 6) for _ in range(500)]))
+        cases.append({'kind': 'fqerdm', 'norb': norb, 'n': na + nb, 'sz': na - nb,
+                      'vec': fqeio.random_state(rng, norb, keys, density=0.9, amp=2),
+                      'vec1': fqeio.random_state(rng, norb, keys, density=0.9, amp=2),
+                      'c': [rng.randint(-2, 2) or 1, rng.randint(-2, 2)],
+                      'update': ['axpy', 'iadd', 'scale', 'conj', 'axpy', 'iadd'][k % 6], 'd3_sample': sample})
     # factorisation cases need no model query (milliseconds each): many of them, because the singular values of an
     # antisymmetric generator come in degenerate pairs and defects in the degenerate-subspace handling need a
     # numerical coincidence (fix d5ddbdb: about 1 generator in 50 at n = 3)
@@ -217,18 +231,22 @@ def expected(model, case):
             v2 = {k: z.conjugate() for k, z in v0.items()}
         vec2 = [[a, b, int(round(z.real)), int(round(z.imag))] for (a, b), z in sorted(v2.items()) if z != 0]
 
-        def rdm2(pat):
+        def rdm2(pat, sample=None):
             vals = []
             if not vec2:
-                return [[0, 0]] * (nso ** len(pat))
-            for ix in itertools.product(range(nso), repeat=len(pat)):
+                return [[0, 0]] * (nso ** len(pat) if sample is None else len(sample))
+            if sample is None:
+                tuples = itertools.product(range(nso), repeat=len(pat))
+            else:
+                tuples = [tuple((f // nso ** (len(pat) - 1 - i)) % nso for i in range(len(pat))) for f in sample]
+            for ix in tuples:
                 ops = []
                 for q, d in zip(ix, pat):
                     ops += [q, d]
                 t = model.q('MATELH', norb, 1, 'T', len(pat), *ops, 1, 0, *fqeio.vec_tokens(vec2), *fqeio.vec_tokens(vec2))
                 vals.append([int(t[0]), int(t[1])])
             return vals
-        return {'vec2': vec2, 'opdm': rdm2([1, 0]), 'tpdm': rdm2([1, 1, 0, 0]), 'd3': rdm2([1, 1, 1, 0, 0, 0])}
+        return {'vec2': vec2, 'opdm': rdm2([1, 0]), 'tpdm': rdm2([1, 1, 0, 0]), 'd3': rdm2([1, 1, 1, 0, 0, 0], case.get('d3_sample'))}
     if case['kind'] == 'rdo':
         norb = case['norb']
         nso = 2 * norb
@@ -274,7 +292,14 @@ def compare(case, got, exp, mode):
         if any(abs(gs.get(k, (0, 0))[0] - es.get(k, (0, 0))[0]) + abs(gs.get(k, (0, 0))[1] - es.get(k, (0, 0))[1]) > 1e-9 for k in set(gs) | set(es)):
             return ['in-place update %s did not produce the expected state (harness / C08 territory)' % case['update']]
         for name in ('opdm', 'tpdm', 'd3'):
-            for k, (g, e) in enumerate(zip(got[name], exp[name])):
+            gl = got[name]
+            if name == 'd3' and case.get('d3_sample') is not None:
+                if len(gl) != (2 * case['norb']) ** 6:
+                    bad.append('d3 has %d entries' % len(gl))
+                    continue
+                gl = [gl[f] for f in case['d3_sample']]
+                got = dict(got, d3=gl)
+            for k, (g, e) in enumerate(zip(gl, exp[name])):
                 if abs(g[0] - e[0]) > 1e-9 * (1 + abs(e[0])) or abs(g[1] - e[1]) > 1e-9 * (1 + abs(e[1])):
                     bad.append('%s of the state after the in-place update (%s), flat index %d: %r%+rj, exact %d%+dj' % (name, case['update'], k, g[0], g[1], e[0], e[1]))
                     break
@@ -332,7 +357,7 @@ def shrink(case):
 
 
 def sample(case):
-    c = {k: v for k, v in case.items() if k not in ('tpdm', 'd3', 'vec1')}
+    c = {k: v for k, v in case.items() if k not in ('tpdm', 'd3', 'vec1', 'd3_sample')}
     if 'vec' in c:
         c['vec'] = c['vec'][:3]
     return c
